@@ -90,6 +90,9 @@ func (c *Ctx) add(rule, key string, pos token.Pos, status, detail string) {
 		c.Rule(rule, "")
 	}
 	c.Obls = append(c.Obls, Obligation{Rule: rule, Key: key, Pos: c.P.Pos(pos), Status: status, Detail: detail})
+	if t := os.Getenv("VERIF_TRACE"); t != "" && strings.HasPrefix(rule, t) {
+		fmt.Fprintf(os.Stderr, "TRACE %s %s:%s %s\n", status, rule, key, detail)
+	}
 }
 
 // Ok records a discharged obligation.
